@@ -212,6 +212,8 @@ impl<I: Interner> Forest<I> {
             "creating new table with goal = {:#?}",
             goal,
         );
+        #[cfg(chalk_verif)]
+        chalk_solve::verif::tick();
         let table = Self::build_table(context, self.tables.next_index(), goal);
         self.tables.insert(table)
     }
@@ -508,6 +510,8 @@ impl<'forest, I: Interner> SolveState<'forest, I> {
         self.stack
             .push(initial_table, Minimums::MAX, self.forest.increment_clock());
         loop {
+            #[cfg(chalk_verif)]
+            chalk_solve::verif::tick();
             let clock = self.stack.top().clock;
             // If we had an active strand, continue to pursue it
             let table = self.stack.top().table;
